@@ -259,7 +259,7 @@ func validatedDate(v ssa.Value, use ssa.Instruction) bool {
 			return false
 		}
 		k, _ := constOf(argsOf(pc)[0])
-		same := strip(argsOf(pc)[1]) == v || describe(argsOf(pc)[1]) == describe(v)
+		same := strip(argsOf(pc)[1]) == v || describeArg(pc, 1) == describe(v)
 		isNil := (bo.Op == token.EQL) == f.Pol
 		return k == "2006-01-02" && same && isNil
 	})
@@ -301,7 +301,7 @@ func runC18(c *Ctx) {
 			if i := strings.LastIndex(bucket, "."); i >= 0 {
 				bucket = bucket[i+1:]
 			}
-			r.Check("C18.names-confined", fname(fn)+"/Object("+shortDesc(stripNames(describe(argsOf(cs)[0])))+") on "+bucket, gd.Pos(cs.Pos()), ok,
+			r.Check("C18.names-confined", fname(fn)+"/Object("+shortDesc(stripNames(describeArg(cs, 0)))+") on "+bucket, gd.Pos(cs.Pos()), ok,
 				"object names must be built from constants, formatted/validated dates, floats or listed names: "+detail)
 		}
 	}
@@ -311,7 +311,7 @@ func runC18(c *Ctx) {
 	nfo := gd.Func("internal/storage", "NewFSObject")
 	okJoin := false
 	for _, cs := range callsIn(nfo, "path/filepath.Join") {
-		d := describe(argsOf(cs)[0])
+		d := describeArg(cs, 0)
 		okJoin = d == "[param:b.dir, param:b.bucket, path/filepath.FromSlash(param:name)]"
 		r.Check("C18.names-confined", "NewFSObject/path = Join(dir, bucket, FromSlash(name))", gd.Pos(cs.Pos()), okJoin, "got "+d)
 	}
@@ -340,8 +340,8 @@ func runC18(c *Ctx) {
 	}
 	r.Check("C18.slash-agreement", "Objects/walks the bucket directory", gd.Pos(objs.Pos()), walk != nil, "fs.WalkDir expected")
 	if walk != nil {
-		root := describe(argsOf(walk)[0])
-		r.Check("C18.walk-root", "Objects/walk root is Join(dir, bucket)", gd.Pos(walk.Pos()), root == "os.DirFS(path/filepath.Join([param:b.dir, param:b.bucket]))" && describe(argsOf(walk)[1]) == `"."`,
+		root := describeArg(walk, 0)
+		r.Check("C18.walk-root", "Objects/walk root is Join(dir, bucket)", gd.Pos(walk.Pos()), root == "os.DirFS(path/filepath.Join([param:b.dir, param:b.bucket]))" && describeArg(walk, 1) == `"."`,
 			"the listing must walk exactly the directory objects are written under; got "+root)
 		cb := funcValue(argsOf(walk)[2])
 		if cb == nil {
@@ -354,36 +354,75 @@ func runC18(c *Ctx) {
 						"returning fs.SkipAll/SkipDir or an error ends the listing early (WalkDir visits directories component-wise, not in full-path lexical order): returns "+describe(ret.Results[0]))
 				}
 			}
-			// append under ¬IsDir ∧ HasPrefix(ToSlash(path), prefix)
-			for _, cs := range callsIn(cb, "builtin:append") {
-				facts := factsAt(cs)
-				notDir := hasFact(facts, func(f Fact) bool {
-					cl, ok := f.Cond.(*ssa.Call)
-					return ok && !f.Pol && strings.HasSuffix(calleeName(&cl.Call), "DirEntry).IsDir")
-				})
-				pfx := hasFact(facts, callResultIs("strings.HasPrefix", true, func(a []ssa.Value, _ *ssa.Call) bool {
-					return describe(a[0]) == "path/filepath.ToSlash(param:path)" && strings.Contains(describe(a[1]), ":prefix")
-				}))
-				_, el, _ := appendedElems(cs.(*ssa.Call))
-				okName := len(el) == 1 && describe(el[0]) == "path/filepath.ToSlash(param:path)"
-				r.Check("C18.slash-agreement", "Objects/lists slash-form names of files with the prefix", gd.Pos(cs.Pos()), notDir && pfx && okName,
-					fmt.Sprintf("append(names, ToSlash(path)) under ¬IsDir ∧ HasPrefix(ToSlash(path), prefix): notDir=%v prefix=%v name=%v", notDir, pfx, okName))
+			// the names handed to the iterator: follow the slice back through every place it is
+			// grown. Each grow site appends either the slash form of the walked path (in the
+			// callback) or an element of an earlier list (a later filtering pass); along the way
+			// exactly two things may filter: the entry is not a directory, and the name has the prefix.
+			var names ssa.Value
+			for _, in := range instrsOf(objs) {
+				if a, ok := in.(*ssa.Alloc); ok && strings.HasSuffix(namedType(a.Type()), "storage.FSObjectIterator") {
+					if lit, ok := structLit(a); ok {
+						names = lit["names"]
+					}
+				}
 			}
-			// and nothing else filters: every non-directory with the prefix is appended (the callback has exactly these two conditions)
+			sites := growSites(names)
+			if len(sites) == 0 {
+				// the list is grown in place in a field (it.names = append(it.names, …), or a small
+				// collector struct): every append of a string in Objects and its literals is a site
+				for _, f := range WithClosures(objs) {
+					for _, cs := range callsIn(f, "builtin:append") {
+						cl := cs.(*ssa.Call)
+						if _, el, ok := appendedElems(cl); ok && len(el) == 1 && isStringy(el[0].Type()) {
+							sites = append(sites, growSite{cl, el[0]})
+						}
+					}
+				}
+			}
+			sawDir, sawPrefix, okShape := false, false, len(sites) > 0
+			detail := ""
+			for _, gs := range sites {
+				facts := factsAt(gs.call)
+				ed := describe(gs.elem)
+				fromWalk := ed == "path/filepath.ToSlash(param:path)" && gs.call.Parent() == cb
+				fromList := strings.HasPrefix(ed, "phi:") || strings.Contains(ed, "rangeval(") || strings.HasSuffix(ed, "]")
+				if !fromWalk && !fromList {
+					okShape = false
+					detail += " element " + shortDesc(ed) + ";"
+				}
+				// every condition this site sits under is one of the two filters (loop mechanics aside)
+				for _, f := range facts {
+					cl, isCall := f.Cond.(*ssa.Call)
+					switch {
+					case isCall && strings.HasSuffix(calleeName(&cl.Call), "DirEntry).IsDir") && !f.Pol:
+						sawDir = true
+					case isCall && calleeName(&cl.Call) == "strings.HasPrefix" && f.Pol && strings.Contains(describe(cl.Call.Args[1]), ":prefix") &&
+						(describe(cl.Call.Args[0]) == "path/filepath.ToSlash(param:path)" || cl.Call.Args[0] == gs.elem || describe(cl.Call.Args[0]) == ed):
+						sawPrefix = true
+					case isLoopMechanics(f):
+					default:
+						okShape = false
+						detail += " extra condition " + shortDesc(describe(f.Cond)) + ";"
+					}
+				}
+			}
+			r.Check("C18.slash-agreement", "Objects/lists slash-form names of files with the prefix", gd.Pos(objs.Pos()), okShape && sawDir && sawPrefix,
+				fmt.Sprintf("names = ToSlash(path) of the walked entries, filtered by ¬IsDir and HasPrefix(name, prefix) only: notDir=%v prefix=%v sites=%d%s", sawDir, sawPrefix, len(sites), detail))
+			// and nothing else filters in the callback: its branches are the two tests (or fewer, when the prefix is applied in a later pass)
 			nIf := 0
 			for _, in := range instrsOf(cb) {
 				if _, ok := in.(*ssa.If); ok {
 					nIf++
 				}
 			}
-			r.Check("C18.listing-complete", "Objects/only the directory and prefix tests filter entries", gd.Pos(cb.Pos()), nIf == 2, fmt.Sprintf("%d conditions in the walk callback", nIf))
+			r.Check("C18.listing-complete", "Objects/only the directory and prefix tests filter entries", gd.Pos(cb.Pos()), nIf <= 2 && nIf >= 1, fmt.Sprintf("%d conditions in the walk callback", nIf))
 		}
 	}
 	// NewFSBucket creates the same root
 	nb := gd.Func("internal/storage", "NewFSBucket")
 	okRoot := false
 	for _, cs := range callsIn(nb, "os.MkdirAll") {
-		okRoot = describe(argsOf(cs)[0]) == "path/filepath.Join([param:dir, param:bucket])"
+		okRoot = describeArg(cs, 0) == "path/filepath.Join([param:dir, param:bucket])"
 	}
 	r.Check("C18.walk-root", "NewFSBucket/creates Join(dir, bucket)", gd.Pos(nb.Pos()), okRoot, "the bucket directory is dir/bucket")
 
@@ -413,15 +452,127 @@ func c18Writer(c *Ctx, gd *Module, rule string) {
 	wr := gd.Func("internal/storage", "FSObject.NewWriter")
 	okTrunc := false
 	for _, cs := range callsIn(wr, "os.Create") {
-		okTrunc = describe(argsOf(cs)[0]) == "param:o.filename"
+		okTrunc = describeArg(cs, 0) == "param:o.filename"
 	}
 	for _, cs := range callsIn(wr, "os.OpenFile") {
-		okTrunc = describe(argsOf(cs)[0]) == "param:o.filename" && gd.openFlagsHave(cs.Common(), "O_CREATE", "O_TRUNC", "O_WRONLY") || gd.openFlagsHave(cs.Common(), "O_CREATE", "O_TRUNC", "O_RDWR")
+		okTrunc = describeArg(cs, 0) == "param:o.filename" && gd.openFlagsHave(cs.Common(), "O_CREATE", "O_TRUNC", "O_WRONLY") || gd.openFlagsHave(cs.Common(), "O_CREATE", "O_TRUNC", "O_RDWR")
 	}
 	r.Check(rule, "godev/internal/storage.(*FSObject).NewWriter", gd.Pos(wr.Pos()), okTrunc, "writing an object must replace its content: os.Create or OpenFile with O_CREATE|O_TRUNC (without O_TRUNC a shorter overwrite keeps a stale tail)")
 	okMk := false
 	for _, cs := range callsIn(wr, "os.MkdirAll") {
-		okMk = describe(argsOf(cs)[0]) == "path/filepath.Dir(param:o.filename)"
+		okMk = describeArg(cs, 0) == "path/filepath.Dir(param:o.filename)"
 	}
 	r.Check(rule, "NewWriter/creates parent directories", gd.Pos(wr.Pos()), okMk, "nested object names need their directories")
+}
+
+// growSite: one place where a slice is grown by append(acc, elem).
+type growSite struct {
+	call *ssa.Call
+	elem ssa.Value
+}
+
+// growSites follows a slice value back through merges, captured variables and append calls
+// and returns every append that contributes elements to it.
+func growSites(v ssa.Value) []growSite {
+	var out []growSite
+	seen := map[ssa.Value]bool{}
+	var visit func(v ssa.Value, depth int)
+	storesTo := func(a ssa.Value) []ssa.Value {
+		var vals []ssa.Value
+		var scan func(addr ssa.Value, depth int)
+		scan = func(addr ssa.Value, depth int) {
+			if depth > 4 {
+				return
+			}
+			for _, u := range referrers(addr) {
+				switch x := u.(type) {
+				case *ssa.Store:
+					if x.Addr == addr {
+						vals = append(vals, x.Val)
+					}
+				case *ssa.MakeClosure:
+					for i, b := range x.Bindings {
+						if b == addr {
+							scan(x.Fn.(*ssa.Function).FreeVars[i], depth+1)
+						}
+					}
+				}
+			}
+		}
+		scan(a, 0)
+		return vals
+	}
+	visit = func(v ssa.Value, depth int) {
+		if v == nil || seen[v] || depth > 12 {
+			return
+		}
+		seen[v] = true
+		switch x := strip(v).(type) {
+		case *ssa.Phi:
+			for _, e := range x.Edges {
+				visit(e, depth+1)
+			}
+		case *ssa.UnOp:
+			if x.Op == token.MUL {
+				base := x.X
+				for k := 0; k < 4; k++ {
+					fv, ok := base.(*ssa.FreeVar)
+					if !ok {
+						break
+					}
+					if b := freeVarBinding(fv); b != nil {
+						base = b
+					} else {
+						break
+					}
+				}
+				for _, sv := range storesTo(base) {
+					visit(sv, depth+1)
+				}
+			}
+		case *ssa.Call:
+			if calleeName(&x.Call) == "builtin:append" {
+				base, elems, ok := appendedElems(x)
+				if ok {
+					for _, e := range elems {
+						out = append(out, growSite{x, e})
+						// an element taken from another list: that list's grow sites contribute too
+						if ld, ok := strip(e).(*ssa.UnOp); ok && ld.Op == token.MUL {
+							if ia, ok := ld.X.(*ssa.IndexAddr); ok {
+								visit(ia.X, depth+1)
+							}
+						}
+						if ix, ok := strip(e).(*ssa.Index); ok {
+							visit(ix.X, depth+1)
+						}
+					}
+				}
+				visit(base, depth+1)
+			}
+		case *ssa.Slice:
+			visit(x.X, depth+1)
+		}
+	}
+	visit(v, 0)
+	return out
+}
+
+// isLoopMechanics: a fact that only says "the loop is still running" (range has a next
+// element, index below length) or "an error value is nil".
+func isLoopMechanics(f Fact) bool {
+	switch c := f.Cond.(type) {
+	case *ssa.Extract:
+		if _, ok := c.Tuple.(*ssa.Next); ok && c.Index == 0 {
+			return true
+		}
+	case *ssa.BinOp:
+		if c.Op == token.LSS || c.Op == token.LEQ || c.Op == token.GTR || c.Op == token.GEQ {
+			d := describe(c.X) + " " + describe(c.Y)
+			return strings.Contains(d, "builtin:len(") || strings.Contains(d, "phi:")
+		}
+		if (c.Op == token.EQL || c.Op == token.NEQ) && (isNilConst(c.X) || isNilConst(c.Y)) {
+			return true
+		}
+	}
+	return false
 }
